@@ -7,6 +7,7 @@
 From Coq Require Import Strings.String.
 From DustDDS Require Import Base.Machine Lang.DeriveModel Lang.DeriveCorr Lang.DeriveDescProofs
   Lang.DeriveRtProofs Lang.DeriveOracleProofs.
+From DustDDS Require KeyHash.Md5Model.
 Open Scope Z_scope.
 
 (* ------------------------------------------------------------ round trip *)
@@ -56,10 +57,20 @@ Theorem C40_ids_sequential :
     struct_ids h ms = map Z.of_nat (seq 0 (length ms)).
 Proof. exact ids_sequential. Qed.
 
+(* `hashid`: the id is the little-endian u32 of the first four MD5 bytes of the member
+   name, masked to the 28 bits of an XTypes member id (fix 470723e) *)
 Theorem C40_ids_hashed :
   forall h ms k m, nth_error ms k = Some m -> m_hashid m = true ->
-    nth_error (struct_ids h ms) k = Some (hash_id (member_name h k m)).
-Proof. exact ids_hashed. Qed.
+    exists i, nth_error (struct_ids h ms) k = Some i /\ i = hash_id (member_name h k m) /\ 0 <= i < 268435456.
+Proof. exact ids_hashed_28bit. Qed.
+
+Theorem C40_hash_id_is_masked_md5 :
+  forall n, hash_id n =
+    match KeyHash.Md5Model.md5 (string_bytes n) with
+    | b0 :: b1 :: b2 :: b3 :: _ => (b0 + 256 * b1 + 65536 * b2 + 16777216 * b3) mod 268435456
+    | _ => 0
+    end.
+Proof. reflexivity. Qed.
 
 Theorem C40_ids_explicit_in_mutable :
   forall h ms k m i, s_ext h = Mutable -> nth_error ms k = Some m -> m_hashid m = false -> m_id m = Some i ->
@@ -152,8 +163,7 @@ Proof. exact enum_literals_refuted. Qed.
 Theorem C40_oracle_sound_struct :
   forall h ms d vs,
     describe (TStruct h ms) = Some d -> wf_ty (TStruct h ms) = true ->
-    kn_explicit_id_ignored (TStruct h ms) = false -> kn_hash_unmasked (TStruct h ms) = false ->
-    kn_ns (TStruct h ms) = false -> existsb (fun m => has_vec_i8 (snd m)) ms = false ->
+    kn_explicit_id_ignored (TStruct h ms) = false -> kn_ns (TStruct h ms) = false ->
     Forall (fun p => has_type (TStruct h ms) (fst p) = true) vs ->
     C40_oracle_ok (model_case (TStruct h ms) d vs) = true.
 Proof. exact oracle_sound_struct. Qed.
@@ -162,7 +172,6 @@ Theorem C40_oracle_sound_union :
   forall h vs d rs,
     describe (TUnion h vs) = Some d -> wf_ty (TUnion h vs) = true ->
     kn_ns (TUnion h vs) = false ->
-    existsb (fun v => match snd v with Some t' => has_vec_i8 t' | None => false end) vs = false ->
     forallb (fun v => forallb in_i32b (v_cases (fst v))) vs = true ->
     Forall (fun p => has_type (TUnion h vs) (fst p) = true) rs ->
     C40_oracle_ok (model_case (TUnion h vs) d rs) = true.
@@ -202,6 +211,7 @@ Print Assumptions C40_duplicate_ids_accepted_and_break_roundtrip.
 Print Assumptions C40_default_variant_not_last_breaks_roundtrip.
 Print Assumptions C40_ids_sequential.
 Print Assumptions C40_ids_hashed.
+Print Assumptions C40_hash_id_is_masked_md5.
 Print Assumptions C40_ids_explicit_in_mutable.
 Print Assumptions C40_ids_explicit_ignored_outside_mutable.
 Print Assumptions C40_ids_distinct.
